@@ -22,7 +22,7 @@ CLASSES = {
     'same_variable': {'quick': 2400, 'thorough': 30000},
     'interleaved': {'quick': 2400, 'thorough': 30000},
     'bounds': {'quick': 2100, 'thorough': 30000},
-    'named_collision': {'quick': 180, 'thorough': 1200},
+    'named_collision': {'quick': 180, 'thorough': 1800},
 }
 MIN_EVENTS = {'quick': {'assert:rel': 5000, 'assert:frame': 5000, 'assert:bounds': 900, 'interleaved_functions_judged': 1500, 'with_user_locals': 800}}
 CASE_TIMEOUT = 120
